@@ -245,10 +245,11 @@ class Engine:
         if ty.kind in ('List', 'Np1') and v.ty.kind in ('List', 'Np1'):
             # element-wise coercion Int->Real
             a, b = v.ty.args[0], ty.args[0]
-            if a.kind in ('Int', 'Bool') and b.kind in ('Real', 'Int'):
+            if (a.kind in ('Int', 'Bool') and b.kind in ('Real', 'Int')) or (b.kind == 'Optional' and a.kind != 'Optional'):
+                # element-wise widening (Int -> Real, T -> Optional[T]): a new sequence value
                 term = self.load(v, st)
                 i = z3.Int(fresh_name('ci'))
-                el = self.coerce(V(a, T.Sel(T.seq_arr(v.ty, term), i)), b, st).t
+                el = self.as_term(self.coerce(self.unbox(a, T.Sel(T.seq_arr(v.ty, term), i), st), b, st), st)
                 return V(ty, T.seq_mk(ty, T.seq_len(v.ty, term), z3.Lambda([i], el)))
         if ty.kind == 'Tuple' and v.ty.kind == 'Tuple' and len(ty.args) == len(v.ty.args):
             parts = [self.as_term(self.coerce(self.tuple_get(v, i, st), a, st), st) for i, a in enumerate(ty.args)]
